@@ -22,6 +22,7 @@ func init() {
 		},
 		Run: runC14,
 		Controls: []Control{
+			{Name: "next-hop-action-equal-by-ordering", File: "routingtable/filter/actions/set_nexthop_action.go", Old: "\treturn a.ip == b.(*SetNextHopAction).ip\n", New: "\treturn a.ip.Compare(b.(*SetNextHopAction).ip) == 0\n", Expect: "equality-not-via-partial-ordering"},
 			{Name: "protocol-lists-compared-by-membership", File: "routingtable/filter/term_condition.go", Old: "\tfor i := range t.protocols {\n\t\tif t.protocols[i] != x.protocols[i] {\n\t\t\treturn false\n\t\t}\n\t}\n", New: "\tin := func(l []uint8, v uint8) bool {\n\t\tfor _, e := range l {\n\t\t\tif e == v {\n\t\t\t\treturn true\n\t\t\t}\n\t\t}\n\t\treturn false\n\t}\n\tfor _, pr := range t.protocols {\n\t\tif !in(x.protocols, pr) {\n\t\t\treturn false\n\t\t}\n\t}\n", Expect: "equality-is-not-inclusion"},
 			{Name: "chain-rejects-by-default", File: "routingtable/filter/chain.go", Old: "\treturn mp, false\n}", New: "\treturn mp, len(c) > 0\n}", Expect: "evaluator-shape"},
 			{Name: "term-needs-all-conditions", File: "routingtable/filter/term.go", Old: "\tfor _, f := range t.from {\n\t\tif f.Matches(p, pa) {\n\t\t\treturn t.processActions(p, pa)\n\t\t}\n\t}\n\n\treturn TermResult{Path: pa}", New: "\tfor _, f := range t.from {\n\t\tif !f.Matches(p, pa) {\n\t\t\treturn TermResult{Path: pa}\n\t\t}\n\t}\n\n\treturn t.processActions(p, pa)", Expect: "evaluator-shape"},
@@ -153,6 +154,7 @@ func evaluatorShape(c *core.Ctx, key, listField string, listIsRecv bool, elemCal
 }
 
 func runC14(c *core.Ctx) {
+	equalityNotViaPartialOrdering(c, "equality-not-via-partial-ordering", []string{"routingtable/filter", "routingtable/filter/actions", "net"}, 10)
 	eqNotSubset(c, "equality-is-not-inclusion")
 	p := c.P
 	eqCoverage(c, "equal-covers-behaviour")
